@@ -491,8 +491,52 @@ fn gen_c08_program(run_seed: u64, tier: Tier) -> TProgram {
     while keys.len() < 3 {
         keys.push(vec![b'k', keys.len() as u8]);
     }
-    let flush_flavour = rng.chance(1, 3);
+    let flavour = rng.below(4);
+    let flush_flavour = flavour == 0;
     let main = keys[0].clone();
+    if flavour == 1 {
+        // an item stored before a delayed flush whose deadline has passed when the clients start,
+        // and that nobody has touched since: whoever reads it first has to treat it as gone
+        let mut init = Vec::new();
+        let d = *rng.pick(&[1u32, 2, 3, 5]);
+        init.push(InitOp::Req(SymReq::store(op::SET, &main, Val::Bytes(vec![0xee, C05_MARK + rng.below(16) as u8]), rng.next() as u32, *rng.pick(&[0u32, 0, 100]), CasSel::Zero)));
+        if rng.chance(1, 2) {
+            init.push(InitOp::AdvanceSecs(rng.range(0, 2)));
+        }
+        init.push(InitOp::Req(SymReq::flush(op::FLUSH, Some(d))));
+        init.push(InitOp::AdvanceSecs(d as u64 + *rng.pick(&[0u64, 0, 1, 50])));
+        let n_clients = rng.range(2, 3) as usize;
+        let mut clients = Vec::new();
+        let mut tag = 0u8;
+        let mut opaque = 0x7900_0000u32;
+        for _t in 0..n_clients {
+            let n_ops = match tier {
+                Tier::Thorough => *rng.pick(&[1u64, 2, 2, 3]),
+                Tier::Quick => rng.range(1, 2),
+            } as usize;
+            let mut ops = Vec::new();
+            for _ in 0..n_ops {
+                tag += 1;
+                opaque += 1;
+                let mut r = match rng.below(12) {
+                    0..=4 => SymReq::get(op::GET, &main),
+                    5 => SymReq::get(op::GETK, &main),
+                    6 => SymReq::store(op::SET, &main, small_val(&mut rng, tag), tag as u32, 0, CasSel::Zero),
+                    7 => SymReq::store(op::ADD, &main, small_val(&mut rng, tag), tag as u32, 0, CasSel::Zero),
+                    8 => SymReq::store(op::REPLACE, &main, small_val(&mut rng, tag), tag as u32, 0, CasSel::Zero),
+                    9 => SymReq::concat(op::APPEND, &main, small_val(&mut rng, tag), CasSel::Zero),
+                    10 => SymReq::concat(op::PREPEND, &main, small_val(&mut rng, tag), CasSel::Zero),
+                    _ => SymReq::get(op::GET, &keys[1]),
+                };
+                r.opaque = opaque;
+                ops.push(r);
+            }
+            clients.push(ops);
+        }
+        let sseed = Rng::sub(run_seed, "schedule").next();
+        let sched = if rng.chance(3, 5) { SchedSpec::Random { seed: sseed } } else { SchedSpec::Pct { seed: sseed, depth: rng.range(1, 3) as u8 } };
+        return TProgram { knobs, init, clients, keys, sched, settle: Vec::new() };
+    }
     let mut init = Vec::new();
     let mut itag = 0u8;
     let mut init_val = |rng: &mut Rng| -> Val {
@@ -706,6 +750,22 @@ fn evaluate_c02(p: &TProgram, h: &THistory, out: &mut Outcome, viols: &mut Vec<V
 /// returned, and not followed or overlapped by another mutation of its key, is
 /// what the final read returns.
 fn evaluate_c08(p: &TProgram, h: &THistory, out: &mut Outcome, viols: &mut Vec<Violation>) {
+    // flavour "deadline passed": the oracle of C05's ring-T portion, with the flush deadline in the
+    // place of the item's own expiry
+    let delayed_flush_in_init = p.init.iter().any(|i| matches!(i, InitOp::Req(r) if matches!(op_info(r.opcode).kind, Kind::Flush) && r.flush_delay.unwrap_or(0) > 0));
+    if delayed_flush_in_init {
+        let mut tmp = Vec::new();
+        evaluate_c05(p, h, &mut tmp);
+        for v in tmp {
+            let clause = match v.clause {
+                "concurrent-visible-after-expiry" => "concurrent-visible-after-flush-deadline",
+                "concurrent-treated-as-present-after-expiry" => "concurrent-treated-as-present-after-flush-deadline",
+                _ => continue,
+            };
+            viols.push(Violation::new("C08", clause, v.detail.replace("had expired before the clients started", "was stored before a delayed flush whose deadline had passed before the clients started")));
+        }
+        return;
+    }
     let is_flush = |o: &crate::ringt::TOp| matches!(op_info(o.req.opcode).kind, Kind::Flush);
     if !h.ops.iter().any(|o| is_flush(o)) {
         let r = lin::check_atomic(h);
